@@ -423,8 +423,8 @@ def check_conservation(eng, run, rule="C10.flow"):
             continue
         attr = level.split(".", 1)[1]
         for fn in ci.methods.values():
-            if isinstance(fn.node, ast.Lambda) or not fn.is_async or fn.self_name is None:
-                continue
+            if isinstance(fn.node, ast.Lambda) or fn.self_name is None or fn.name in ("__init__", "connection_made", "connection_lost", "buffer_updated", "get_buffer"):
+                continue  # (the event-loop callbacks fill the buffer; the rule is about the functions that hand bytes out)
             la = f"{fn.self_name}.{attr}"
             if not any(isinstance(x, (ast.Assign, ast.AugAssign)) and any(dotted(t) == la for t in (x.targets if isinstance(x, ast.Assign) else [x.target])) for x in own_nodes(fn.node)):
                 continue
@@ -698,15 +698,15 @@ def run(eng, run):
         total_sources += check_hold(eng, run, fn, "C10.hold")
     run.floor("C10.hold async functions with a source", len(fns), 14)
     run.floor("C10.hold source sites", total_sources, 14)
-    check_lend(eng, run)
-    check_withdraw(eng, run)
+    run.attempt(check_lend, eng, run)
+    run.attempt(check_withdraw, eng, run)
     from rules.c03 import check_water_marks
-    check_water_marks(eng, run, rule="C10.flow")
-    check_raw_buffer_reads(eng, run)
-    check_conservation(eng, run)
-    check_ack(eng, run)
-    check_parser(eng, run)
-    check_eof_latch(eng, run)
+    run.attempt(check_water_marks, eng, run, rule="C10.flow")
+    run.attempt(check_raw_buffer_reads, eng, run)
+    run.attempt(check_conservation, eng, run)
+    run.attempt(check_ack, eng, run)
+    run.attempt(check_parser, eng, run)
+    run.attempt(check_eof_latch, eng, run)
     sync_fns = [f for f in hold_functions(eng, False) if f.module.name.startswith(("easynetwork.lowlevel.api_sync.endpoints", "easynetwork.clients"))]
     for fn in sync_fns:
         check_sync(eng, run, fn)
@@ -715,6 +715,7 @@ def run(eng, run):
     run.tables["shield_names"] = sorted(__import__("sa.summary", fromlist=["SHIELD_NAMES"]).SHIELD_NAMES)
     run.counters["async_functions"] = sum(1 for f in eng.db.all_functions() if f.is_async)
     run.counters["never_suspend"] = sum(1 for f in eng.db.all_functions() if f.is_async and not s.may_suspend(f))
+    run.end_of_rules()
 
 
 # ---------------------------------------------------------------------------------------------- self-test corpus
